@@ -97,7 +97,10 @@ ISFX = dict(bool="", char="", uchar="", short="", ushort="", int="", uint="U", l
 
 def operand_literal(t, b):
     """a constant expression of type t whose value is the operand with object bytes b (None if there is none:
-    NaN and infinities have no literal)"""
+    NaN and infinities have no literal).  For int, unsigned, long and unsigned long it is a *bare* integer constant
+    (6.4.4.1 gives it exactly that type), so that a conversion applied to it sees a constant operand - a cast in
+    front of it would hide it from constant folding in the parser (seeded change C02-3).  The spelling (decimal /
+    hexadecimal, suffix case, unsuffixed hexadecimal for unsigned long >= 2^63) varies with the value."""
     if t in FLT:
         v = int.from_bytes(bytes(b), "little")
         if t == "float":
@@ -118,6 +121,17 @@ def operand_literal(t, b):
         lit = "0.0" + FSFX[t] if m == 0 else "0x%xp%d%s" % (m, ex, FSFX[t])
         return "(-%s)" % lit if sign else lit
     n = int_of(t, b)
+    h = zlib.crc32(("%s %d" % (t, n)).encode())
+    if t in ("int", "long"):
+        sfx = "" if t == "int" else "lL"[h & 1]
+        if n == -(1 << 63) or (t == "int" and n == -(1 << 31)):
+            return "(-%d%s - 1)" % (-n - 1, sfx)           # the positive literal would have the next wider type
+        return "(-%d%s)" % (-n, sfx) if n < 0 else "%d%s" % (n, sfx)
+    if t in ("uint", "ulong"):
+        sfx = ["U", "u"][h & 1] if t == "uint" else ["UL", "ul", "LU", "uL"][h & 3]
+        if t == "ulong" and n >= 1 << 63 and (h >> 2) % 3 == 0:
+            return "0x%x" % n                               # an unsuffixed hexadecimal constant that fits no signed type
+        return ("0x%x%s" if (h >> 4) & 1 else "%d%s") % (n, sfx)
     if n == -(1 << 63):
         lit = "(-9223372036854775807L - 1)"
     elif n < 0:
@@ -150,6 +164,17 @@ def modes(c):
             out["static"] = (xl, yl)
             if f != "conv":
                 out["literal"] = (xl, yl)
+            else:
+                # the constant as the direct operand of the conversion, in every conversion context
+                for m in ("lit-cast", "lit-init", "lit-ret", "lit-arg"):
+                    out[m] = (xl, yl)
+                if c["at"] not in FLT and c["rt"] in FLT:
+                    out["lit-cond"] = (xl, yl)
+    if f == "mixed" and c["op"] == "cond" or f == "opasg":
+        xl = operand_literal(c["at"], c["xb"])
+        yl = operand_literal(c["bt"], c["yb"])
+        if yl is not None and (xl is not None or f == "opasg"):
+            out["literal"] = (xl, yl)
     if f in ("dec", "hex"):
         out = {"local": (None, None), "static": (None, None)}
     return out
@@ -202,7 +227,32 @@ def render(i, c):
             pre.append("%s z; memcpy(&z, I%d + %d, %d);" % (CT[at], i, len(c["xb"]) + len(c["yb"]), len(c["zb"])))
     v = vsel(c) % 3
     mode, xl, yl = context(c)
-    if mode != "memory" and f not in ("dec", "hex"):
+    if mode == "literal" and f == "opasg":
+        pre = pre[:1]
+        e = "x %s= %s" % (OPS[op], yl)
+        body.append("%s r = (%s);" % (RT, e) if v == 1 else "%s; %s r = x;" % (e, RT))
+    elif mode == "literal" and f == "mixed" and op == "cond":
+        pre = []
+        e = "(I%d[0] | 1) ? %s : %s" % (i, xl, yl)
+        body.append("%s r = %s;" % (RT, e))
+    elif mode.startswith("lit-"):
+        pre = []
+        e = "(%s)%s" % (RT, xl)
+        if mode == "lit-cast":
+            body.append("%s r = %s;" % (RT, e))
+        elif mode == "lit-init":
+            body.append("%s r = %s;" % (RT, xl))
+        elif mode == "lit-ret":
+            out.append("static %s g%d(void) { return %s; }" % (RT, i, xl))
+            body.append("%s r = g%d();" % (RT, i))
+        elif mode == "lit-arg":
+            out.append("static %s g%d(%s v) { return v; }" % (RT, i, RT))
+            body.append("%s r = g%d(%s);" % (RT, i, xl))
+        else:
+            body.append("%s r = (I%d[0] | 1) ? %s : (%s)0;" % (RT, i, xl, RT))
+        if rt not in FLT:
+            body.append('printf("W %d %%lu\\n", (unsigned long)(%s));' % (i, e))
+    elif mode != "memory" and f not in ("dec", "hex"):
         pre = []
         if f == "conv":
             e = "(%s)%s" % (RT, xl)
@@ -416,6 +466,12 @@ def fval_class(t, b):
 
 
 def sig_of(c, exp, got):
+    s = sig_of0(c, exp, got)
+    m = context(c)[0]
+    return "literal:" + s if (m == "literal" or m.startswith("lit-")) else s
+
+
+def sig_of0(c, exp, got):
     f, op, at, bt, rt = c["f"], c["op"], c["at"], c["bt"], c["rt"]
     if got is not None and "C" in got and got["C"][0] != exp["C"][0]:
         kind = "type"
